@@ -27,6 +27,9 @@ import (
 //	src_join_counter_bits     gateway_parallel.go: narrowest integer field of struct parallelGateway (int, uint = 64)
 //	src_join_counter_resets   ... a method of parallelGateway assigns 0 to such a field (the arrival counter starts
 //	                          again when the gateway fires, it does not run on)
+//	src_setvariable_replaces  pkg/data/impl.go FlowDataLocator.SetVariable: a stored value is never written through
+//	                          (no assignment to a field of something that was read out of the variables table); the
+//	                          name is pointed at another value instead
 type protoFacts struct {
 	SubProcessRegisters bool
 	ActiveBeforeArm     bool
@@ -36,6 +39,7 @@ type protoFacts struct {
 	FlagPerActivation   bool
 	JoinCounterBits     int
 	JoinCounterResets   bool
+	SetVariableReplaces bool
 }
 
 func findMethod(f *ast.File, recv, name string) *ast.FuncDecl {
@@ -268,14 +272,90 @@ func protocolFacts(c *factsCtx) (pf protoFacts) {
 			})
 		}
 	}
+	// --- pkg/data/impl.go
+	if sv := findMethod(c.parse("pkg/data/impl.go"), "FlowDataLocator", "SetVariable"); sv == nil {
+		c.fail("protocol facts: FlowDataLocator.SetVariable not found in pkg/data/impl.go")
+	} else {
+		// identifiers whose defining expression reads from a table of the receiver (x := f.variables[..], x, ok := ...)
+		fromTable := map[*ast.Object]bool{}
+		storesIntoTable := false
+		ast.Inspect(sv.Body, func(n ast.Node) bool {
+			as, ok := n.(*ast.AssignStmt)
+			if !ok {
+				return true
+			}
+			for _, r := range as.Rhs {
+				reads := false
+				ast.Inspect(r, func(m ast.Node) bool {
+					if ix, ok := m.(*ast.IndexExpr); ok {
+						if se, ok := ix.X.(*ast.SelectorExpr); ok && se.Sel.Name == "variables" {
+							reads = true
+						}
+					}
+					return true
+				})
+				if reads && as.Tok == token.DEFINE {
+					for _, l := range as.Lhs {
+						if id, ok := l.(*ast.Ident); ok && id.Obj != nil && id.Name != "ok" && id.Name != "_" {
+							fromTable[id.Obj] = true
+						}
+					}
+				}
+			}
+			return true
+		})
+		writesThrough := false
+		ast.Inspect(sv.Body, func(n ast.Node) bool {
+			as, ok := n.(*ast.AssignStmt)
+			if !ok {
+				return true
+			}
+			for _, l := range as.Lhs {
+				switch x := l.(type) {
+				case *ast.IndexExpr:
+					if se, ok := x.X.(*ast.SelectorExpr); ok && se.Sel.Name == "variables" {
+						storesIntoTable = true
+					}
+				case *ast.SelectorExpr:
+					root := x.X
+					for {
+						if s2, ok := root.(*ast.SelectorExpr); ok {
+							root = s2.X
+						} else if st, ok := root.(*ast.StarExpr); ok {
+							root = st.X
+						} else if pa, ok := root.(*ast.ParenExpr); ok {
+							root = pa.X
+						} else {
+							break
+						}
+					}
+					if id, ok := root.(*ast.Ident); ok && id.Obj != nil && fromTable[id.Obj] {
+						writesThrough = true
+					}
+					if strings.Contains(nodeText(c.fset, x.X), ".variables[") {
+						writesThrough = true
+					}
+				case *ast.StarExpr:
+					if id, ok := x.X.(*ast.Ident); ok && id.Obj != nil && fromTable[id.Obj] {
+						writesThrough = true
+					}
+				}
+			}
+			return true
+		})
+		if !storesIntoTable {
+			c.fail("protocol facts: FlowDataLocator.SetVariable does not store into a table named variables")
+		}
+		pf.SetVariableReplaces = storesIntoTable && !writesThrough
+	}
 	return
 }
 
 func init() {
 	factGens = append(factGens, func(c *factsCtx) {
 		pf := protocolFacts(c)
-		fmt.Fprintf(&c.out, "(* protocol facts read off the sources (harness/protocol.go) *)\nDefinition src_active_before_arm : bool := %v.\nDefinition src_termchan_capacity : nat := %d.\nDefinition src_termchan_table_kept : bool := %v.\nDefinition src_determination_is_cas : bool := %v.\nDefinition src_subprocess_registers : bool := %v.\nDefinition src_determination_flag_per_activation : bool := %v.\nDefinition src_join_counter_bits : N := %d%%N.\nDefinition src_join_counter_resets : bool := %v.\n\n",
-			pf.ActiveBeforeArm, pf.TermChanCapacity, pf.TermChanTableKept, pf.DeterminationIsCAS, pf.SubProcessRegisters, pf.FlagPerActivation, pf.JoinCounterBits, pf.JoinCounterResets)
+		fmt.Fprintf(&c.out, "(* protocol facts read off the sources (harness/protocol.go) *)\nDefinition src_active_before_arm : bool := %v.\nDefinition src_termchan_capacity : nat := %d.\nDefinition src_termchan_table_kept : bool := %v.\nDefinition src_determination_is_cas : bool := %v.\nDefinition src_subprocess_registers : bool := %v.\nDefinition src_determination_flag_per_activation : bool := %v.\nDefinition src_join_counter_bits : N := %d%%N.\nDefinition src_join_counter_resets : bool := %v.\nDefinition src_setvariable_replaces : bool := %v.\n\n",
+			pf.ActiveBeforeArm, pf.TermChanCapacity, pf.TermChanTableKept, pf.DeterminationIsCAS, pf.SubProcessRegisters, pf.FlagPerActivation, pf.JoinCounterBits, pf.JoinCounterResets, pf.SetVariableReplaces)
 	})
 	commands["protocol"] = func(env *Env) {
 		c := &factsCtx{repo: env.Repo, fset: token.NewFileSet()}
